@@ -131,13 +131,13 @@ def _run_schedules(binp, scheds, d, tag="s", timeout=1800, env=None):
     return out
 
 
-def run_free(binp, sched, variant, d, tag="free", still=30):
+def run_free(binp, sched, variant, d, tag="free", still=30, quota=3000):
     """The configuration of a schedule on the real scheduler and the real clock (harness/pipedrv/free.go); one process."""
     inp = os.path.join(d, "%s_%s_in.jsonl" % (tag, variant))
     outp = os.path.join(d, "%s_%s_out.jsonl" % (tag, variant))
     with open(inp, "w") as f:
         f.write(json.dumps(dict(sched, id=0, cfg=norm_cfg(sched["cfg"]))) + "\n")
-    p = common.run_bin(binp, ["-test.run", "TestFree", "-test.timeout", "20m"], env=dict(VERIF_IN=inp, VERIF_OUT=outp, VERIF_VARIANT=variant, VERIF_STILL_S=still), timeout=1500)
+    p = common.run_bin(binp, ["-test.run", "TestFree", "-test.timeout", "20m"], env=dict(VERIF_IN=inp, VERIF_OUT=outp, VERIF_VARIANT=variant, VERIF_STILL_S=still, VERIF_QUOTA=quota), timeout=1500)
     t = None
     if os.path.exists(outp):
         for line in open(outp):
